@@ -104,7 +104,7 @@ def run(ctx):
     # (2) API-built packets through the independent dissector
     scripts, metas = [], {}
     for i in range(1500 if quick else 25000):
-        lines, meta = G.build_udp_zero(rng, i) if i % 25 == 7 else G.build(rng, i)
+        lines, meta = G.build_udp_zero(rng, i) if i % 25 == 7 else (G.build_udp_zero6(rng, i) if i % 25 == 8 else G.build(rng, i))
         scripts.append(('p%d' % i, lines))
         metas['p%d' % i] = meta
     h = C.run_harness('h_pkt', scripts)
@@ -145,7 +145,7 @@ def run(ctx):
 
     def chain_of(b):
         nh, off, out = b[6], 40, []
-        while nh in (0, 43, 60) and off + 8 <= len(b):
+        while nh in (0, 43, 60, 51) and off + 8 <= len(b):
             out.append(nh)
             nh, off = b[off], off + 8 * (b[off + 1] + 1)
         return out + [nh], off
@@ -153,7 +153,7 @@ def run(ctx):
     xs = []
     for i in range(150 if quick else 3000):
         k = rng.choice([1, 2, 2, 3, 3])
-        types = [rng.choice([0, 43, 60]) for _ in range(k)]
+        types = [rng.choice([0, 43, 60, 51]) for _ in range(k)]
         if 0 in types:
             types = [0] + [t for t in types if t != 0][:k - 1]          # hop-by-hop goes first
         l4p = rng.choice([17, 6])
@@ -166,7 +166,7 @@ def run(ctx):
         ext = b''
         for j, t in enumerate(types):
             nxt = types[j + 1] if j + 1 < len(types) else l4p
-            n8 = rng.choice([0, 0, 1])
+            n8 = rng.choice([0, 0, 1]) if t != 51 else rng.choice([1, 2, 4])
             body = bytes([1, 6 + 8 * n8 - 2]) + bytes(6 + 8 * n8 - 2) if t != 43 else bytes([0, 0]) + bytes(4 + 8 * n8)
             ext += bytes([nxt, n8]) + body[:6 + 8 * n8]
         b = _st.pack('>IHBB', 6 << 28, len(ext) + len(l4), types[0], 64) + src + dst + ext + l4
